@@ -23,31 +23,31 @@ import (
 )
 
 type Result struct {
-	Package      string         `json:"package"`
-	Entry        string         `json:"entry"`
-	Status       string         `json:"status"` // holds | violated | inconclusive | error
-	Paths        int            `json:"paths"`
-	Decisions    int            `json:"decisions"`
-	MaxDepth     int            `json:"max_depth"`
-	Queries      int            `json:"queries"`
-	SolverS      float64        `json:"solver_s"`
-	WallS        float64        `json:"wall_s"`
-	LoadS        float64        `json:"load_s"`
-	Ended        map[string]int `json:"ended"`
-	EndMsgs      map[string]int `json:"end_msgs,omitempty"`
+	Package      string                 `json:"package"`
+	Entry        string                 `json:"entry"`
+	Status       string                 `json:"status"` // holds | violated | inconclusive | error
+	Paths        int                    `json:"paths"`
+	Decisions    int                    `json:"decisions"`
+	MaxDepth     int                    `json:"max_depth"`
+	Queries      int                    `json:"queries"`
+	SolverS      float64                `json:"solver_s"`
+	WallS        float64                `json:"wall_s"`
+	LoadS        float64                `json:"load_s"`
+	Ended        map[string]int         `json:"ended"`
+	EndMsgs      map[string]int         `json:"end_msgs,omitempty"`
 	Asserts      map[string]*AssertStat `json:"asserts"`
-	Reach        map[string]bool `json:"reach"`
-	Violations   []*Violation   `json:"violations"`
-	Funcs        []string       `json:"functions_encoded"`
-	Warnings     []string       `json:"warnings,omitempty"`
-	Assumptions  []string       `json:"assumptions"`
-	Samples      []string       `json:"samples"`
+	Reach        map[string]bool        `json:"reach"`
+	Violations   []*Violation           `json:"violations"`
+	Funcs        []string               `json:"functions_encoded"`
+	Warnings     []string               `json:"warnings,omitempty"`
+	Assumptions  []string               `json:"assumptions"`
+	Samples      []string               `json:"samples"`
 	Bounds       map[string]interface{} `json:"bounds"`
-	Solver       string         `json:"solver"`
-	PerSolver    map[string]int `json:"queries_per_solver"`
-	Outs         []string       `json:"outs,omitempty"`
-	Inconclusive []string       `json:"inconclusive,omitempty"`
-	Error        string         `json:"error,omitempty"`
+	Solver       string                 `json:"solver"`
+	PerSolver    map[string]int         `json:"queries_per_solver"`
+	Outs         []string               `json:"outs,omitempty"`
+	Inconclusive []string               `json:"inconclusive,omitempty"`
+	Error        string                 `json:"error,omitempty"`
 }
 
 func fatal(res *Result, out string, format string, args ...interface{}) {
